@@ -17,7 +17,8 @@ EXPLANATION = (
     "sort_imports places the future group first.  R07.3: the selector of remove_unused_imports is a union that "
     "includes the __all__ list and the literal '__all__'.  R07.4: every concrete ImportInfo subclass has a "
     "visit<Name> method on the base visitor (dispatch is by class name).  R07.5: the used-name recorder adds every "
-    "dotted prefix of a used primary (the one-time selector needs prefix-closure).  Idempotence, re-emitted text and sort keys "
+    "dotted prefix of a used primary (the one-time selector needs prefix-closure).  R07.6: in the star-import branch the "
+    "stateful selector is consulted only until its first acceptance.  Idempotence, re-emitted text and sort keys "
     "are not decided."
 )
 ASSUMPTIONS = ["scope-opening constructors without a handler in the finder (async def, lambda, comprehensions) only make more names count as used: conservative, not armed"]
@@ -186,3 +187,56 @@ def check(ctx, res) -> None:
         res.fail("R07.5", "add_unbound|prefix-closed", au.where,
                  f"add_unbound records only {sorted(set(kinds))} of a used dotted name, not every prefix: with `import pkg.alpha` and `import pkg.beta.tools` "
                  "(used as pkg.beta.tools.f()), the first import claims `pkg` and the second matches no recorded name, so organize-imports deletes an import that is used")
+
+    # ---- R07.6 the one-time selector is stateful: asking it about further names after it accepted one marks those
+    # names as provided by this import.  In the star-import branch it must be consulted only until the first acceptance.
+    sel = idx.need_class("rope.refactor.importutils.module_imports._OneTimeSelector")
+    call = sel.methods.get("__call__")
+    stateful = call is not None and any(isinstance(x, ast.Call) and isinstance(x.func, ast.Attribute) and x.func.attr in ("add", "append", "update")
+                                        and any(is_self_attr(y) for y in ast.walk(x.func.value))
+                                        for m in sel.methods.values() for x in ast.walk(m.node))
+    if not stateful:
+        res.undecided("R07.6", "visitFromImport|star", fv.where, "selector no longer looks stateful")
+    else:
+        parents = {}
+        for n in ast.walk(fv.node):
+            for ch in ast.iter_child_nodes(n):
+                parents[id(ch)] = n
+        cfg = CFG(fv.node)
+        star_calls = []
+        for c in calls_in(fv.node, local=False):
+            if is_self_attr(c.func, "can_select"):
+                # inside the star branch?
+                n = c
+                in_star = False
+                while id(n) in parents:
+                    n = parents[id(n)]
+                    if isinstance(n, ast.If) and "is_star_import" in ast.unparse(n.test) and any(x is c for s_ in n.body for x in ast.walk(s_)):
+                        in_star = True
+                if in_star:
+                    star_calls.append(c)
+        if not star_calls:
+            raise AnalysisError("anchor=FilteringVisitor.visitFromImport: selector call in the star-import branch not found")
+        for c in star_calls:
+            ok = None
+            n = c
+            comp = None
+            while id(n) in parents and not isinstance(n, ast.stmt):
+                n = parents[id(n)]
+                if isinstance(n, (ast.ListComp, ast.SetComp, ast.DictComp, ast.GeneratorExp)) and comp is None:
+                    comp = n
+            if comp is not None:
+                par = parents.get(id(comp))
+                lazy = isinstance(comp, ast.GeneratorExp) and isinstance(par, ast.Call) and call_name(par) in ("any", "next")
+                ok = lazy
+            else:
+                nodes = cfg.node_containing(c)
+                tn = next((x for x in nodes if x.kind == "test"), None)
+                if tn is not None:
+                    tgt = [b for b, l in cfg.succ[tn.id] if l == "true"]
+                    ok = bool(tgt) and tn.id not in cfg.reachable(tgt[0])
+            res.add("R07.6", "visitFromImport|star", ok, f"{fv.unit.rel}:{c.lineno}",
+                    "in the star branch the selector is not consulted again after it accepted a name" if ok else
+                    "in the star-import branch the stateful one-time selector is evaluated for every exported name (eager comprehension / no break after "
+                    "acceptance): all used names the star module exports are marked as provided, so a later explicit import overriding one of them is "
+                    "judged unused and removed -- the name silently resolves to the star module's object")
